@@ -21,8 +21,9 @@ type ScriptTransport struct {
 	cond *sync.Cond
 
 	open        bool
-	readWaiting int // readers parked in Read waiting for bytes
-	gen         int // incremented by every successful Open
+	readWaiting int         // readers parked in Read waiting for bytes
+	parked      map[int]int // generation -> readers of that generation parked in Read (see script_sessions.go)
+	gen         int         // incremented by every successful Open
 	inbuf       []byte
 	inErr       error // delivered once inbuf is drained (sticky until next Open)
 	outbuf      []byte
@@ -123,7 +124,9 @@ func (s *ScriptTransport) Read(p []byte) (int, error) {
 			return 0, nil
 		}
 		s.readWaiting++
+		s.park(gen, +1)
 		s.cond.Wait()
+		s.park(gen, -1)
 		s.readWaiting--
 	}
 }
